@@ -102,17 +102,17 @@ def _helper_read_frame(lit: LineIterator) -> tuple:
         resnames.append(line[5:10].split()[-1])
         attypes.append(line[10:15].split()[-1])
         words = line[20:].split()
-        if len(words) not in (3, 6):
+        try:
+            if len(words) not in (3, 6):
+                raise ValueError
+            values = [float(word) for word in words]
+        except ValueError:
             # Wide values make the fixed-width fields (3 x %8.3f, 3 x %8.4f) touch: cut them by column.
             nfield = 6 if len(line.rstrip()) > 44 else 3
-            words = [line[20 + 8 * j : 28 + 8 * j] for j in range(nfield)]
-        pos[i, 0] = float(words[0])
-        pos[i, 1] = float(words[1])
-        pos[i, 2] = float(words[2])
-        if len(words) == 6:
-            vel[i, 0] = float(words[3])
-            vel[i, 1] = float(words[4])
-            vel[i, 2] = float(words[5])
+            values = [float(line[20 + 8 * j : 28 + 8 * j]) for j in range(nfield)]
+        pos[i] = values[:3]
+        if len(values) == 6:
+            vel[i] = values[3:]
         else:
             # The velocity columns are optional.
             has_velocities = False
